@@ -709,12 +709,22 @@ class ConfigInformation:
         if not self._validated:
             self._validated = True
 
+            def validate_value(value):
+                # Configurations can be held by lists and dictionaries
+                if isinstance(value, Config):
+                    value.__xpm__.validate()
+                elif isinstance(value, (list, tuple)):
+                    for item in value:
+                        validate_value(item)
+                elif isinstance(value, dict):
+                    for item in value.values():
+                        validate_value(item)
+
             # Check each argument
             for k, argument in self.xpmtype.arguments.items():
                 value = self.values.get(k)
                 if value is not None:
-                    if isinstance(value, Config):
-                        value.__xpm__.validate()
+                    validate_value(value)
                 elif argument.required:
                     if not argument.generator:
                         raise ValueError(
